@@ -50,6 +50,15 @@ fn any_map_n(n: usize) -> (M, [(Key, u8); N], usize) {
     }
     (m, e, n)
 }
+macro_rules! gen_sized {
+    ($name:ident, $law:ident, $n:expr) => {
+        #[kani::proof]
+        #[kani::unwind(5)]
+        fn $name() {
+            $law($n);
+        }
+    };
+}
 /// index of the entry whose key == k, per the model
 fn find(e: &[(Key, u8); N], n: usize, k: Key) -> Option<usize> {
     if n > 0 && e[0].0 == k {
@@ -89,35 +98,42 @@ fn c13_ordermap_get() {
 /// C13: after insert(k, v): get(k) == v; an existing == key is replaced in
 /// place (same position, key representation kept), otherwise appended at
 /// the end; ALL other entries unchanged, in order; invariant kept.
-#[kani::proof]
-#[kani::unwind(5)]
-fn c13_ordermap_insert() {
-    let (mut m, e, n) = any_map();
+fn insert_law(n: usize) {
+    let (mut m, e, n) = any_map_n(n);
     let k = Key(kani::any());
     let v: u8 = kani::any();
     let ret = m.insert(k, v);
     assert!(m.get(&k) == Some(&v), "map.get after map.set returns v");
+    // j ranges over the entries that existed before (none when n == 0)
     let j: usize = kani::any();
-    kani::assume(j < n);
+    let check_j = j < n;
     match find(&e, n, k) {
         Some(i) => {
             assert!(ret == Some(e[i].1), "insert returns the replaced value");
             assert!(m.len() == n, "replace keeps the size");
-            let (kj, vj) = *m.get_item(j).unwrap();
-            assert!(kj.0 == e[j].0.0, "keys (and their order) unchanged");
-            assert!(vj == if j == i { v } else { e[j].1 }, "only the addressed entry changes");
+            if check_j {
+                let (kj, vj) = *m.get_item(j).unwrap();
+                assert!(kj.0 == e[j].0.0, "keys (and their order) unchanged");
+                assert!(vj == if j == i { v } else { e[j].1 }, "only the addressed entry changes");
+            }
         }
         None => {
             assert!(ret.is_none());
             assert!(m.len() == n + 1, "new key is appended");
-            let (kj, vj) = *m.get_item(j).unwrap();
-            assert!(kj.0 == e[j].0.0 && vj == e[j].1, "existing entries unchanged");
+            if check_j {
+                let (kj, vj) = *m.get_item(j).unwrap();
+                assert!(kj.0 == e[j].0.0 && vj == e[j].1, "existing entries unchanged");
+            }
             let (kl, vl) = *m.get_item(n).unwrap();
             assert!(kl.0 == k.0 && vl == v, "new entry is last (m1's order, then new keys)");
         }
     }
     assert!(wf(&m), "keys stay pairwise !=");
 }
+gen_sized!(c13_ordermap_insert_n0, insert_law, 0);
+gen_sized!(c13_ordermap_insert_n1, insert_law, 1);
+gen_sized!(c13_ordermap_insert_n2, insert_law, 2);
+gen_sized!(c13_ordermap_insert_n3, insert_law, 3);
 
 /// C13: remove deletes exactly the entry with the == key, keeps the order of
 /// the rest, returns its value; absent key => map unchanged.
@@ -147,15 +163,6 @@ fn remove_law(n: usize) {
     }
 }
 
-macro_rules! gen_sized {
-    ($name:ident, $law:ident, $n:expr) => {
-        #[kani::proof]
-        #[kani::unwind(5)]
-        fn $name() {
-            $law($n);
-        }
-    };
-}
 gen_sized!(c13_ordermap_remove_n0, remove_law, 0);
 gen_sized!(c13_ordermap_remove_n1, remove_law, 1);
 gen_sized!(c13_ordermap_remove_n2, remove_law, 2);
